@@ -103,7 +103,8 @@ def expander(pid, tier, types):
 
 
 CL = {
-    "C04": {("C04", "never_panics"), ("C04", "well_formed"), ("C04", "equals_reference"), ("C04", "encodable_value_rejected")},
+    "C04": {("C04", "never_panics"), ("C04", "well_formed"), ("C04", "equals_reference"), ("C04", "encodable_value_rejected"),
+            ("C04", "earlier_output_intact")},
     "C05": {("C05", "decode_never_panics"), ("C05", "decode_succeeds"), ("C05", "round_trip"), ("C05", "unsupported_is_error")},
     "C16": {("C16", "never_panics"), ("C16", "malformed_is_error")},
 }
